@@ -1232,7 +1232,8 @@ Definition open_inv (c : config) : Prop :=
      nth_error (c_objs c) o = Some ob -> In ci (o_subs clone) -> In ci (o_subs ob)) /\
   (forall o ob, nth_error (c_objs c) o = Some ob -> (0 <= o_defbuf ob)%Z) /\
   (forall t th cl, nth_error (c_threads c) t = Some th -> In cl (th_prog th) -> call_ok cl) /\
-  (forall t th l, nth_error (c_threads c) t = Some th -> th_pc th = PLockWait l -> call_ok (call_of l)).
+  (forall t th l, nth_error (c_threads c) t = Some th -> th_pc th = PLockWait l -> call_ok (call_of l)) /\
+  (forall t th o clone, nth_error (c_threads c) t = Some th -> th_pc th = PWithOnlyU o clone -> (0 <= o_defbuf clone)%Z).
 
 Definition closing (c : config) (th : thread) : option (oid * cid) :=
   match th_pc th with
@@ -1304,7 +1305,7 @@ Qed.
 Lemma starts_call_ok c t th cl rest :
   open_inv c -> nth_error (c_threads c) t = Some th -> starts th cl rest -> call_ok cl.
 Proof.
-  intros (_ & _ & _ & _ & _ & _ & O7 & O8) Ht [[_ E]|(l & E & -> & _)].
+  intros (_ & _ & _ & _ & _ & _ & O7 & O8 & _) Ht [[_ E]|(l & E & -> & _)].
   - apply (O7 t th); auto. rewrite E. left; reflexivity.
   - eapply O8; eauto.
 Qed.
@@ -1314,7 +1315,7 @@ Lemma no_panic_step c t th c' :
   lock_inv c -> wg_inv c -> open_inv c -> c_panic c' = None.
 Proof.
   intros Hp Ht T LI (G1 & _) OI.
-  pose proof OI as (O1 & O2 & O3 & O4 & O5 & O6 & O7 & O8).
+  pose proof OI as (O1 & O2 & O3 & O4 & O5 & O6 & O7 & O8 & O9).
   destruct T; try match goal with S : send_trans _ _ _ _ _ _ _ _ _ _ |- _ => inv_send S end; norm; auto; exfalso.
   - (* Sub with a negative size *)
     pose proof (starts_call_ok c t th _ rest OI Ht H) as Hok.
